@@ -62,6 +62,81 @@ mutant('C16', 'locate-private-result', 'topology.py',
        "        ielems = numpy.empty(len(coords), dtype=int)\n",
        'locate results of child processes are lost', expect='O1')
 
+# ------------------------------------------------------------------ C18
+mutant('C18', 'fn-eoferror-unhandled', 'cache.py',
+       "            except (EOFError, pickle.UnpicklingError, IndexError):\n                log.debug('[cache.function {}] failed to load",
+       "            except (pickle.UnpicklingError, IndexError):\n                log.debug('[cache.function {}] failed to load",
+       'an empty entry (process killed between touch and write) is not survived', expect='J1')
+mutant('C18', 'fn-unpicklingerror-unhandled', 'cache.py',
+       "            except (EOFError, pickle.UnpicklingError, IndexError):\n                log.debug('[cache.function {}] failed to load",
+       "            except (EOFError, IndexError):\n                log.debug('[cache.function {}] failed to load",
+       'a torn entry is not survived', expect='J1')
+mutant('C18', 'fn-no-lock', 'cache.py',
+       "            log.debug('[cache.function {}] acquiring lock'.format(hkey))\n            _lock_file(f)\n",
+       "            log.debug('[cache.function {}] acquiring lock'.format(hkey))\n",
+       'entry not locked: concurrent callers both execute the function', expect='J3')
+mutant('C18', 'lock-shared', 'cache.py',
+       "        fcntl.flock(f, fcntl.LOCK_EX)\n",
+       "        fcntl.flock(f, fcntl.LOCK_SH)\n",
+       'shared instead of exclusive lock', expect='J3')
+mutant('C18', 'fn-dump-order', 'cache.py',
+       "            pickle.dump((value, log_), f)\n",
+       "            pickle.dump((log_, value), f)\n",
+       'entry written in an order the reader does not expect', expect='J1')
+mutant('C18', 'fn-no-replay', 'cache.py',
+       "                log.debug('[cache.function {}] load'.format(hkey))\n                log_.replay()\n",
+       "                log.debug('[cache.function {}] load'.format(hkey))\n",
+       'log output not replayed on a cache hit', expect='J2')
+mutant('C18', 'fn-key-without-kwargs', 'cache.py',
+       "        for hkv in sorted(hashlib.sha1(k.encode()).digest()+types.nutils_hash(v) for k, v in kwargs.items()):\n            h.update(hkv)\n",
+       "",
+       'keyword-only arguments are not part of the key', expect='J1')
+mutant('C18', 'fn-key-first-arg-only', 'cache.py',
+       "        for arg in args:\n            h.update(types.nutils_hash(arg))\n",
+       "        for arg in args[:1]:\n            h.update(types.nutils_hash(arg))\n",
+       'only the first positional argument is part of the key', expect='J1')
+mutant('C18', 'fn-old-fail-ignored', 'cache.py',
+       "                    if fail:\n                        raise pickle.UnpicklingError\n",
+       "",
+       'old-format entries that recorded a failure are served as values', expect='J1')
+mutant('C18', 'rec-history-wrong-end', 'cache.py',
+       "                                history = history[1:]\n",
+       "                                history = history[:-1]\n",
+       'history truncated at the wrong end', expect='J4')
+mutant('C18', 'rec-history-not-truncated', 'cache.py',
+       "                            if len(history) > length:\n                                history = history[1:]\n",
+       "",
+       'history handed to resume is longer than the recursion length', expect='J4')
+mutant('C18', 'rec-stop-not-stored', 'cache.py',
+       "                        pickle.dump((log_, stop, value), f)\n",
+       "                        pickle.dump((log_, False, value), f)\n",
+       'end-of-sequence marker lost: replay continues past the end', expect='J4')
+mutant('C18', 'rec-resume-index-off', 'cache.py',
+       "                            resume = self.resume_index(history, i)\n",
+       "                            resume = self.resume_index(history, i+1)\n",
+       'resume started at the wrong iteration', expect='J4')
+mutant('C18', 'rec-unpicklingerror-unhandled', 'cache.py',
+       "                        except (pickle.UnpicklingError, IndexError):\n",
+       "                        except IndexError:\n",
+       'a torn recursion item is not survived', expect='J1')
+mutant('C18', 'rec-eof-unhandled', 'cache.py',
+       "                        except EOFError:\n                            log.debug('[cache.Recursion {}.{:04d}] cache exhausted'.format(hkey, i))\n                            exhausted = True\n",
+       "",
+       'an empty recursion item (the normal end of the cache) is not survived', expect='J1')
+mutant('C18', 'rec-no-lock', 'cache.py',
+       "                    log.debug('[cache.Recursion {}.{:04d}] acquiring lock'.format(hkey, i))\n                    _lock_file(f)\n",
+       "                    log.debug('[cache.Recursion {}.{:04d}] acquiring lock'.format(hkey, i))\n",
+       'recursion items not locked', expect='J3')
+mutant('C18', 'rec-no-replay', 'cache.py',
+       "                            log.debug('[cache.Recursion {}.{:04d}] load'.format(hkey, i))\n                            log_.replay()\n",
+       "                            log.debug('[cache.Recursion {}.{:04d}] load'.format(hkey, i))\n",
+       'log of cached recursion items not replayed', expect='J2')
+mutant('C18', 'rec-no-seek', 'cache.py',
+       "                            resume = self.resume_index(history, i)\n                            f.seek(0)\n",
+       "                            resume = self.resume_index(history, i)\n",
+       'recomputed item appended after the torn bytes instead of replacing them (still correct values, never cached) - informational', expect='survive')
+
+
 def run_mutant(prop, m, tier='quick', keep=False):
     scratch = f'/dev/shm/vsim-mut-{os.getpid()}-{m["id"]}'
     shutil.rmtree(scratch, ignore_errors=True)
@@ -102,6 +177,10 @@ def main(props, only=None, tier='quick'):
             allres.setdefault(prop, []).append(r)
             print(json.dumps(dict(property=prop, **r)))
             sys.stdout.flush()
-            if r['status'] != 'killed':
+            if m.get('expect') == 'survive':
+                r['expected'] = 'survive (benign change: the property still holds)'
+                if r['status'] == 'killed':
+                    bad += 1
+            elif r['status'] != 'killed':
                 bad += 1
     return 1 if bad else 0
